@@ -29,6 +29,18 @@ Oracles    : implementation only, judged by an independent reader (json / fastav
                         copy of the handle's own schema object -- x the divergent variants x fresh / reused handles; the
                         same build modes are mixed into every random history and transaction and into `accept`
                prebuilt pre-built parquet files with divergent footers / other formats through append_files
+               stats    what the caller of append_files CLAIMS about a well-formed pre-built file (DataFile.lower_bounds /
+                        upper_bounds: none, true, of other content, too narrow, under other columns' ids, one side only, {}):
+                        directed (every claim x column types) and mixed into every random transaction; after the commit every
+                        stored value of every column must be found again by a filtered scan
+               lists    COMPLEX types: {"type": "list<e>"} columns to depth 2 (Schema lets dict definitions through; the writer
+                        maps them to pa.list_) x list / tuple values whose elements plain pyarrow silently alters, scalars, nested
+                        lists -- cells, spellings (listof, listof2), random histories
+               ids      field ids as a caller may write them: "1" next to 1, all strs, floats, True, None, 2**70, negative -- in
+                        the TABLE schema (refused, or as good as any id) and, written as "1" / 1.0, in the schema ARGUMENT of an
+                        append (also through objects edited after construction); directed (oracle_ids_keys) and in random histories
+               keys     record keys that are no strs but whose str() names a column (1 / None / True for "1" / "None" / "True"),
+                        and such keys naming nothing: the value under them is refused or returned, never dropped
                handles  HANDLE PROVENANCE (harness/lib/c11_open.py): the appending handle obtained by load_table, create_table(path),
                         create_table(path, schema=S) / Table(path, schema=S) on the EXISTING table -- S every schema-argument
                         variant (incl. narrowed / widened types) under the table's schema_id or another, built in every build
@@ -59,6 +71,15 @@ Findings   : (findings/C11-unchanged-tree.log, findings/C11-prebuilt-format-unch
                        argument) whose types are spelled {"type": t} had NO value admission (1.5 -> 1 ...)             (fixed)
                F-C11e  dict-spelled binary columns got the repr of their bytes as string bounds: str literals mis-pruned (fixed)
                        (findings/C11-type-spelling-unchanged-tree.log, findings/C11-spelled-binary-bounds-unchanged-tree.log)
+               F-C11f  append_files stored caller-supplied lower / upper bounds as given and pruning trusted them: a pre-built file
+                       claiming bounds that do not enclose its content made scan(filter=...) drop rows the table holds        (fixed)
+               F-C11g  list<e> columns had no value admission: [1.5, 2.7] -> [1, 2], b"x" -> [120], [1e40] -> [inf] (float)   (fixed)
+               F-C11h  Schema accepted field ids that are no ints: 1 and "1" collide as manifest keys (rows mis-filtered), 1.5 /
+                       True / None ids make manifests unreadable (every scan raises)                                          (fixed)
+               F-C11i  a schema ARGUMENT object edited after construction skipped Schema's checks: an id 1.0 / True equals the
+                       table's 1 in the signature, keyed the bounds, and every later scan raised                              (fixed)
+               F-C11j  a record key that is no str passed validation through str(k) and its value was stored as NULL         (fixed)
+                       (findings/C11-*-unchanged-tree.log of the eighth audit round)
                open    tables created without a schema enforce nothing (probe_legacy; outside the proved scope)
 """
 from __future__ import annotations
@@ -74,15 +95,15 @@ import shutil
 from typing import Any, Dict, List, Optional, Tuple
 
 from harness.lib import coqbuild
-from harness.lib.c11_values import (POOL, TYPES, dec, dec_record, enc, enc_record, exact, f32, good_values,
-                                    pyval_to_coq, same_cell)
+from harness.lib.c11_values import (LIST_TYPES, POOL, TYPES, dec, dec_record, elem_type, enc, enc_record, exact, f32, good_values,
+                                    is_seq, pyval_to_coq, same_cell)
 from harness.lib.c11_open import PLAIN_VARIANTS, gen_open, observe_cache, open_label, open_real
 from harness.lib.values import val_to_coq
 
 LEVEL = "proof"
 THEOREMS = ["C11_accept_scans", "C11_history_scans", "C11_accept_bounds", "C11_history_filter", "C11_history_bounds_exact",
             "C11_history_bounds_true", "C11_reject_no_trace", "C11_exact_partial", "C11_fits_representable",
-            "C11_arg_object_irrelevant", "C11_tx_rejected_call_no_trace", "C11_tx_fault_fails_closed", "C11_tx_publishes_accepted_only", "C11_tx_unpublished_no_trace", "C11_tx_history_scans",
+            "C11_arg_object_irrelevant", "C11_tx_rejected_call_no_trace", "C11_tx_fault_fails_closed", "C11_tx_publishes_accepted_only", "C11_tx_unpublished_no_trace", "C11_tx_history_scans", "C11_tx_history_filter", "C11_tx_exact_partial",
             "C11_open_derives_only_persisted", "C11_open_no_trace", "C11_handle_provenance_irrelevant", "C11_handles_history_scans",
             "C11_handles_history_filter", "C11_handles_exact_partial", "C11_handles_tx_history_scans"]
 REQ = ["DS.Model.Value", "DS.Gen.GenPrune", "DS.Model.Prune", "DS.Gen.GenSchema", "DS.Model.Schema", "DS.Model.SchemaTx",
@@ -90,16 +111,21 @@ REQ = ["DS.Model.Value", "DS.Gen.GenPrune", "DS.Model.Prune", "DS.Gen.GenSchema"
 
 MANIFEST_ENTRY = {
     "level_text": "Coq proofs over Model/Schema.v + regenerated Gen/GenSchema.v, for every table schema with unique names "
-                  "and ids, every history of append attempts (any schema arguments, any handles with their Arrow-schema "
+                  "and (integer) ids over primitive and list<...> column types, every history of append attempts (any schema arguments, any handles with their Arrow-schema "
                   "caches, any record batches, commit failures) of any length: accepted schema arguments have the table's "
                   "Arrow schema, field ids and validation behaviour (C11_accept_scans, C11_accept_bounds); every data file "
                   "of every snapshot carries the table's Arrow schema so full scans never raise, and pruned filtered scans "
                   "equal unpruned ones (C11_history_scans, C11_history_filter, composing C13); every stored bound is exactly the "
                   "minimum / maximum of its column, under the table's field id, and encloses every ordinary value "
                   "(C11_history_bounds_exact, C11_history_bounds_true); in explicit transactions a call that raises adds "
-                  "nothing to the queue, a successful commit publishes exactly the files of the accepted calls, any "
-                  "other end publishes nothing, scans keep working, and calls made while storage operations fail (metadata "
-                  "unreadable, marker writes failing) fail closed -- never 'no schema to enforce' (C11_tx_*); an append depends on the schema argument "
+                  "nothing to the queue, a successful commit publishes exactly the files the trace of its calls (run_calls) "
+                  "lists for the accepted ones, any other end publishes nothing, full scans keep working, pruned filtered scans "
+                  "equal unpruned ones whatever bounds callers supply with pre-built files (C11_tx_history_filter: stored bounds "
+                  "are none or recomputed from the file), the full scan returns exactly the canonical rows of accepted records "
+                  "calls and the rows of accepted files calls (C11_tx_exact_partial, under conv_sound), and calls made while "
+                  "storage operations fail (metadata unreadable, marker writes failing) fail closed -- never 'no schema to "
+                  "enforce': derived from flags regenerated from the source (which failing operation is outside every try) "
+                  "(C11_tx_*); an append depends on the schema argument "
                   "object only through its schema_id and fields, never through derived attributes such as a stale "
                   "schema_string (C11_arg_object_irrelevant); handle provenance is irrelevant: over the REGENERATED actions of "
                   "create_table / load_table / Table.__init__ (Gen/GenOpen.v) no opening derives an Arrow layout from its "
@@ -112,10 +138,19 @@ MANIFEST_ENTRY = {
                   "rows are stored as canon(type, value) with every value representable (C11_exact_partial, under "
                   "conv_sound). Model pieces tied to the code by differential execution; implementation-only end-to-end "
                   "oracle with an independent reader searches for failing inputs.",
-    "level_note": "C11_exact_partial is partial: hypothesis conv_sound (pyarrow stores an ADMITTED value as canon or raises) "
-                  "is validated against real pyarrow on every run, not proved. Scope: tables with a persisted schema "
-                  "(legacy tables without one enforce nothing: open finding), primitive column types, append_records / "
-                  "append_data / append_files; handles on a table that EXISTS (creation of an absent table is C18's). "
+    "level_note": "C11_exact_partial, C11_tx_exact_partial, C11_handles_exact_partial are partial: hypothesis conv_sound "
+                  "(pyarrow stores an ADMITTED value -- lists element by element -- as canon_c or raises) is validated against real "
+                  "pyarrow on every run, not proved. The filter / bounds_true theorems assume conv_kinds (a converted cell has the "
+                  "kind of its Arrow type), C11_tx_history_filter also pf_typed (a parquet column holds values of its footer "
+                  "type): facts about pyarrow / parquet stated as hypotheses, conv_kinds validated on every run. "
+                  "C11_history_filter / C11_exact_partial speak of single-append events (run), C11_tx_history_filter / "
+                  "C11_tx_exact_partial of explicit transactions (run_txs). C11_fits_representable relates the admission test "
+                  "to its Prop transcription (ints into float columns are left to pyarrow: part of conv_sound); "
+                  "C11_arg_object_irrelevant holds because the model never consults derived attributes (tied by the machine "
+                  "correspondence over all build modes). Scope: tables with a persisted schema (legacy tables without one "
+                  "enforce nothing: open finding), primitive and list<...> column types (map / struct definitions resolve to "
+                  "string columns), str field names, append_records / append_data / append_files; pre-built files with list "
+                  "columns are not generated; handles on a table that EXISTS (creation of an absent table is C18's). "
                   "Trusted: Coq kernel, translator/gen_schema.py, translator/gen_open.py, harness.",
     "technique": "Coq proof (induction over histories of openings and appends, invariant, erasure of openings) over "
                  "translator-regenerated tables and opening skeletons + differential correspondence (incl. per-handle "
@@ -204,13 +239,22 @@ def same_table_state(a: Dict[str, Any], b: Dict[str, Any]) -> Optional[str]:
 
 # ---------------------------------------------------------------------------------- type spellings
 # Schema.__post_init__ validates only STRING type definitions; a dict / list definition passes unchecked.
-SHAPES = ["dict", "dict_doc", "nested", "upper", "list", "empty"]
+# "listof" / "listof2": the COMPLEX type list<element> (Schema lets a dict definition through unvalidated;
+# _iceberg_type_to_arrow maps {"type": "list<t>"} to pa.list_(...), to any depth).
+SHAPES = ["dict", "dict_doc", "nested", "upper", "list", "empty", "listof", "listof2"]
 
 
 def spell(t: str, shape: str) -> Any:
     """Another spelling of a field's type definition around the primitive type name t."""
     return {"dict": {"type": t}, "dict_doc": {"type": t, "doc": "spelled"}, "nested": {"type": {"type": t}},
-            "upper": {"type": t.upper()}, "list": [t], "empty": {}}[shape]
+            "upper": {"type": t.upper()}, "list": [t], "empty": {}, "listof": {"type": f"list<{t}>"},
+            "listof2": {"type": f"list<list<{t}>>", "doc": "nested list"}}[shape]
+
+
+def _innermost(x: str) -> str:
+    while elem_type(x) is not None:
+        x = elem_type(x)
+    return x
 
 
 def base_of(tdef: Any) -> str:
@@ -222,38 +266,47 @@ def base_of(tdef: Any) -> str:
     x = tdef.get("type", "string")
     if isinstance(x, dict):
         x = x.get("type", "string")
-    return x.lower()
+    return _innermost(x).lower()
 
 
 def declared_type(tdef: Any) -> str:
-    """The oracle's reading of a definition: the primitive type it plainly names ("int", {"type": "int", ...}),
-    else "opaque" -- a definition that names no primitive type, under which nothing may be altered."""
+    """The oracle's reading of a definition: the type it plainly names -- a primitive type ("int", {"type": "int", ...})
+    or a list of such to any depth ({"type": "list<int>"}) --, else "opaque": a definition that names no such type,
+    under which nothing may be altered."""
     if isinstance(tdef, str):
         return tdef
-    if isinstance(tdef, dict) and isinstance(tdef.get("type"), str) and tdef["type"] in TYPES:
+    if isinstance(tdef, dict) and isinstance(tdef.get("type"), str) and _innermost(tdef["type"]) in TYPES:
         return tdef["type"]
     return "opaque"
 
 
 def resolved_type(tdef: Any) -> str:
-    """MODEL side (follows the code): what _iceberg_type_to_arrow / _value_fits resolve a definition to."""
-    if isinstance(tdef, str):
-        return tdef
+    """MODEL side (follows the code): what _iceberg_type_to_arrow / _value_fits resolve a definition to, as a
+    canonical text: a primitive type name, or list<...> of a resolved type; everything unrecognised is a string."""
     if isinstance(tdef, dict):
-        x = tdef.get("type", "string")
-        return x if isinstance(x, str) and x in TYPES else "string"
+        tdef = tdef.get("type", "string")
+    if isinstance(tdef, str):
+        if tdef.startswith("list<"):
+            return "list<" + resolved_type(tdef[5:-1]) + ">"
+        if tdef in TYPES:
+            return tdef
     return "string"
 
 
+def ctype_coq(rt: str) -> str:
+    """Model/Schema.v ctype for a resolved type text."""
+    et = elem_type(rt)
+    return f"(CList {ctype_coq(et)})" if et is not None else f"(CPrim T_{rt})"
+
+
+_SPELLINGS: Dict[str, int] = {}
+
+
 def spell_code(tdef: Any) -> int:
-    """0 for a plain string; otherwise injective in the JSON text of the definitions this module builds."""
+    """0 for a plain string; otherwise injective in the JSON text of the definition (the signature's type_key)."""
     if isinstance(tdef, str):
         return 0
-    for si, shape in enumerate(SHAPES):
-        for ti, t in enumerate(TYPES):
-            if spell(t, shape) == tdef:
-                return (si + 1) * 100 + (0 if shape == "empty" else ti)
-    raise ValueError(f"unknown spelling {tdef!r}")
+    return _SPELLINGS.setdefault(json.dumps(tdef, sort_keys=True), len(_SPELLINGS) + 1)
 
 
 # ---------------------------------------------------------------------------------- schema argument OBJECTS
@@ -298,22 +351,79 @@ def build_schema(mode: str, sid: int, arg_fields: List[Dict[str, Any]], table_fi
 
 
 # ---------------------------------------------------------------------------------- cases
-def mk_fields(rng, ncols: int, p_spelled: float = 0.0) -> List[Dict[str, Any]]:
+# Field ids as a caller may write them.  Schema must accept only what the rest of the library can key
+# statistics by -- an id object that is no int either makes Schema() raise (then there is no table and no
+# append to speak about) or must behave, in every later scan, like any other id.
+ID_MODES = ["str_twin",      # one id is the str of another column's id: 1 and "1"
+            "all_str",       # "1", "2", ...
+            "float",         # 1.5, 2.5, ...
+            "bool",          # True, 2, 3
+            "none",          # None, 2, 3
+            "big",           # 2**70 + i (ints: must simply work)
+            "negative"]      # -1, 0, 1 (ints: must simply work)
+
+
+def exotic_ids(rng, fields: List[Dict[str, Any]], mode: str) -> None:
+    n = len(fields)
+    if mode == "str_twin":
+        if n < 2:
+            fields[0]["id"] = str(fields[0]["id"])
+            return
+        i, j = rng.sample(range(n), 2)
+        fields[i]["id"] = str(fields[j]["id"])
+    elif mode == "all_str":
+        for f in fields:
+            f["id"] = str(f["id"])
+    elif mode == "float":
+        for f in fields:
+            f["id"] = f["id"] + 0.5
+    elif mode == "bool":
+        fields[0]["id"] = True
+        for k, f in enumerate(fields[1:]):
+            f["id"] = k + 2
+    elif mode == "none":
+        fields[rng.randrange(n)]["id"] = None
+    elif mode == "big":
+        for f in fields:
+            f["id"] = 2**70 + f["id"]
+    elif mode == "negative":
+        for k, f in enumerate(fields):
+            f["id"] = k - 1
+    else:
+        raise ValueError(mode)
+
+
+def int_ids(fields: Optional[List[Dict[str, Any]]]) -> bool:
+    return all(type(f.get("id")) is int for f in fields or [])
+
+
+# column names that are the str() of a non-str object a careless caller may use as a record key
+KEY_TWINS = {"1": 1, "None": None, "True": True}
+
+
+def mk_fields(rng, ncols: int, p_spelled: float = 0.0, p_ids: float = 0.0, p_names: float = 0.0) -> List[Dict[str, Any]]:
     names = ["a", "b", "c"][:ncols]
+    if rng.random() < p_names:
+        names[-1] = rng.choice(sorted(KEY_TWINS))
     fields = []
     spelled = rng.random() < p_spelled
     for i, n in enumerate(names):
         t: Any = rng.choice(TYPES)
         if spelled and rng.random() < 0.7:
-            t = spell(t, rng.choice(["dict", "dict", "dict", "dict_doc"] + SHAPES))
+            t = spell(t, rng.choice(["dict", "dict", "dict", "dict_doc", "listof", "listof"] + SHAPES))
         fields.append({"id": i + 1, "name": n, "type": t, "required": rng.random() < 0.25})
+    if rng.random() < p_ids:
+        exotic_ids(rng, fields, rng.choice(ID_MODES))
     return fields
 
 
 VARIANTS = ["omitted", "identical", "identical_new_sid", "required_key_dropped", "reordered", "reordered_new_sid", "renumbered",
             "ids_shifted", "retyped", "narrowed", "nullability", "extra", "missing", "renamed",
             # the same types, spelled differently (all fields / one field / back to the plain string)
-            "spelled_dict", "spelled_dict_doc", "spelled_nested", "spelled_upper", "spelled_list", "spelled_empty", "spelled_one", "spelled_plain"]
+            "spelled_dict", "spelled_dict_doc", "spelled_nested", "spelled_upper", "spelled_list", "spelled_empty", "spelled_one", "spelled_plain",
+            "spelled_listof",
+            # the same ids, written as other objects ("1" for 1; 1.0 for 1)
+            "ids_as_str", "ids_as_float"]
 
 
 NEAR_TYPE = {"double": "float", "float": "double", "long": "int", "int": "long", "string": "uuid", "uuid": "string",
@@ -340,6 +450,15 @@ def make_variant(rng, fields: List[Dict[str, Any]], name: str) -> Optional[Tuple
         k = rng.randrange(1, len(fs))
         fs = fs[k:] + fs[:k]
         return fs, (1 if name == "reordered" else 7)
+    if name in ("ids_as_str", "ids_as_float"):
+        changed = False
+        for f in fs:
+            if type(f["id"]) is int:
+                f["id"] = str(f["id"]) if name == "ids_as_str" else float(f["id"])
+                changed = True
+        return (fs, rng.choice([1, 7])) if changed else None
+    if name in ("renumbered", "ids_shifted") and not int_ids(fs):
+        return None
     if name == "renumbered":
         if len(fs) < 2:
             return None
@@ -417,12 +536,18 @@ def gen_records(rng, fields: List[Dict[str, Any]], p_bad: float) -> List[Dict[st
                 r[f["name"]] = rng.choice(gv)
         if rng.random() < 0.04:
             r["zz"] = 1                                   # unknown field
+        for f in fields:
+            # a value filed under an object whose str() is the column's name (1 for the column "1")
+            if f["name"] in KEY_TWINS and f["name"] in r and r[f["name"]] is not None and rng.random() < 0.5:
+                r[KEY_TWINS[f["name"]]] = r.pop(f["name"])
+        if rng.random() < 0.03:
+            r[rng.choice([1, None, 2.5, ("a",)])] = 1     # a key that is no str and names no field
         recs.append(r)
     return recs
 
 
 def gen_case(rng, nsteps: int, p_bad: float = 0.12, p_open: float = 0.35) -> Dict[str, Any]:
-    fields = mk_fields(rng, rng.choice([1, 2, 2, 3]), p_spelled=0.25)
+    fields = mk_fields(rng, rng.choice([1, 2, 2, 3]), p_spelled=0.25, p_ids=0.08, p_names=0.08)
     steps = []
     for _ in range(nsteps):
         while True:
@@ -513,7 +638,12 @@ def run_case(case: Dict[str, Any], root: str, filters_per_col: int = 2) -> Dict[
     import random
     rng = random.Random(case.get("seed", 0))
     shutil.rmtree(root, ignore_errors=True)
-    table = create_table(root, Schema(schema_id=1, fields=copy.deepcopy(case["fields"])))
+    try:
+        table_schema = Schema(schema_id=1, fields=copy.deepcopy(case["fields"]))
+    except ValueError as e:
+        # the schema itself is refused (e.g. field ids that are no integers): no table, nothing to append to
+        return {"violations": [], "trace": [], "refused": str(e)[:160]}
+    table = create_table(root, table_schema)
     handles: Dict[str, Any] = {"A": table}
     violations: List[Tuple[str, str]] = []
     trace: List[Dict[str, Any]] = []
@@ -606,8 +736,8 @@ def run_case(case: Dict[str, Any], root: str, filters_per_col: int = 2) -> Dict[
                 cols = sorted({k for r in got for k in r})
                 for col in cols:
                     present = [r[col] for r in got if r.get(col) is not None and not (isinstance(r[col], float) and r[col] != r[col])]
-                    if not present:
-                        continue
+                    if not present or is_seq(present[0]):
+                        continue                     # what a filter on a list column means is C12's subject
                     probes = [(rng.choice(OPS), rng.choice(present)) for _ in range(filters_per_col)]
                     # directed probes at the EXTREMES of the file this step wrote: the stored bounds of a file
                     # are only ever consulted against literals near its minimum and maximum, so those are asked
@@ -688,6 +818,11 @@ def _judge_rows(supplied: List[Tuple[Dict[str, str], Dict[str, Any]]], got: List
         return ("count", f"{len(supplied)} rows were accepted, the scan returns {len(got)}")
     remaining = list(got)
     for types, rec in supplied:
+        lost = [k for k in rec if k not in types and rec[k] is not None]
+        if lost:
+            # a supplied cell whose key is no column of the table: there is no place a scan could return it from
+            return (f"dropped-key:{type(lost[0]).__name__}", f"accepted row {rec!r:.160} holds a value under the key {lost[0]!r} "
+                                                             f"({type(lost[0]).__name__}), which is no column ({sorted(types)}): the value is not returned by any scan")
         hit = None
         for i, r in enumerate(remaining):
             if set(r.keys()) != set(types.keys()):
@@ -891,10 +1026,20 @@ def oracle_tx(ctx) -> List[Tuple[Dict[str, Any], Dict[str, Any]]]:
     """Explicit transactions that outlive a rejected call: directed multi-file appends whose refused file is at
     every position, then random transaction histories (records and files calls, commit / rollback / abandon /
     failing commit, reused and fresh handles)."""
-    from harness.lib.c11_tx import FILE_KINDS_BAD, gen_file, gen_tx_case, shrink_tx, tx_case_json
+    from harness.lib.c11_tx import FILE_KINDS_BAD, STATS, gen_file, gen_tx_case, shrink_tx, tx_case_json
     rng = ctx.rng
     cases: List[Dict[str, Any]] = []
     kinds = FILE_KINDS_BAD
+    # what the caller CLAIMS about a well-formed pre-built file (DataFile.lower_bounds / upper_bounds): every claim x
+    # column types x {one file, the claimed file next to an honest one} -- after the commit every stored value must
+    # be found again by a filtered scan (run_tx_case probes == on every distinct value of every column)
+    for stats in STATS[1:]:
+        for ty in ("long", "string", "double", "timestamp") if ctx.tier == "thorough" else (rng.choice(["long", "string"]), rng.choice(["double", "timestamp", "date"])):
+            fields = [{"id": 1, "name": "a", "type": ty, "required": False}, {"id": 2, "name": "b", "type": rng.choice(["long", "string"]), "required": False}]
+            files = [gen_file(rng, fields, "good", stats)] + ([gen_file(rng, fields, "good", "none")] if rng.random() < 0.5 else [])
+            cases.append({"kind": "tx", "fields": fields, "seed": rng.getrandbits(30), "txs": [
+                {"handle": "A", "end": "commit", "calls": [{"op": "records", "variant": "omitted", "arg": None, "sid": 1, "build": "fresh", "records": gen_records(rng, fields, 0.0)}]},
+                {"handle": rng.choice(["A", "fresh"]), "end": "commit", "calls": [{"op": "files", "files": files}]}]})
     for kind in kinds:
         for pos in (0, 1, 2):
             for follow in ((False, True) if ctx.tier == "thorough" or pos == 2 else (False,)):
@@ -985,6 +1130,65 @@ def oracle_objects(ctx) -> None:
             what2 = next((w for k, w in again["violations"] if k == key), what)
             ctx.violation(k2, f"schema argument built by '{mode}' ({vname}, handle {hname}): {what2}", {"kind": "history", "case": case_json(small)})
     ctx.stats["objects"] = {"cases": len(jobs), "by_build_mode": outcomes}
+
+
+def oracle_ids_keys(ctx) -> List[Tuple[Dict[str, Any], Dict[str, Any]]]:
+    """Directed: (1) field ids as a caller may write them (ID_MODES) in the TABLE schema, and written as other objects
+    ("1", 1.0) in the schema ARGUMENT of an append to an int-id table -- two columns of one type with disjoint value
+    ranges, so that statistics filed under a colliding or mangled id cannot go unnoticed by the extreme-value filtered
+    scans; (2) record keys that are no strs but whose str() names a column (1 for "1", None for "None", True for
+    "True"), alone and next to ordinary keys: the value under such a key is either refused or returned."""
+    rng = ctx.rng
+    pairs = [("long", [100, 101], [1, 2]), ("string", ["x1", "x2"], ["a1", "a2"]), ("double", [10.5, 11.5], [0.5, 1.5])]
+    jobs: List[Tuple[Dict[str, Any], int]] = []
+    meta: List[str] = []
+    for mode in ID_MODES:
+        for ty, va, vb in (pairs if ctx.tier == "thorough" else rng.sample(pairs, 2)):
+            fields = [{"id": 1, "name": "a", "type": ty, "required": False}, {"id": 2, "name": "b", "type": ty, "required": False}]
+            exotic_ids(rng, fields, mode)
+            jobs.append(({"fields": fields, "seed": rng.getrandbits(30), "steps": [
+                {"handle": "A", "variant": "omitted", "arg": None, "sid": 1, "build": "fresh", "records": [{"a": va[0], "b": vb[0]}]},
+                {"handle": rng.choice(["A", "fresh"]), "variant": "identical", "arg": copy.deepcopy(fields), "sid": rng.choice([1, 7]), "build": "fresh",
+                 "records": [{"a": va[1], "b": vb[1]}]}]}, 1))
+            meta.append(f"table field ids {[f['id'] for f in fields]!r}")
+    for vname in ("ids_as_str", "ids_as_float"):
+        for hname in ("A", "fresh"):
+            ty, va, vb = rng.choice(pairs)
+            fields = [{"id": 1, "name": "a", "type": ty, "required": False}, {"id": 2, "name": "b", "type": ty, "required": False}]
+            arg, sid = make_variant(rng, fields, vname)
+            jobs.append(({"fields": fields, "seed": rng.getrandbits(30), "steps": [
+                {"handle": "A", "variant": "omitted", "arg": None, "sid": 1, "build": "fresh", "records": [{"a": va[0], "b": vb[0]}]},
+                {"handle": hname, "variant": vname, "arg": arg, "sid": sid, "build": "fresh", "records": [{"a": va[1], "b": vb[1]}]}]}, 1))
+            meta.append(f"argument field ids {[f['id'] for f in arg]!r}")
+    for name, key in sorted(KEY_TWINS.items()):
+        for ty in ("string", "long"):
+            fields = [{"id": 1, "name": "a", "type": "long", "required": False}, {"id": 2, "name": name, "type": ty, "required": False}]
+            val = "x" if ty == "string" else 7
+            for rec in ({"a": 1, key: val}, {key: val}, {"a": 2, name: val, key: val}):
+                jobs.append(({"fields": fields, "seed": rng.getrandbits(30), "steps": [
+                    {"handle": "A", "variant": "omitted", "arg": None, "sid": 1, "build": "fresh", "records": [rec]}]}, 1))
+                meta.append(f"record key {key!r} ({type(key).__name__}) on a column named {name!r}")
+    seen = set()
+    runs = []
+    outcomes = {"accepted": 0, "rejected": 0, "schema_refused": 0}
+    for (case, _), what0, res in zip(jobs, meta, bounded_many(ctx.scratch, jobs)):
+        runs.append((case, res))
+        ctx.count(1 + len(res["trace"]), ("ids-keys", what0, len(runs)))
+        if res.get("refused"):
+            outcomes["schema_refused"] += 1
+        for ev in res["trace"]:
+            outcomes[ev["outcome"]] += 1
+        for key, what in res["violations"]:
+            k2 = ("field-ids:" if "field ids" in what0 else "record-keys:") + key
+            if k2 in seen:
+                continue
+            seen.add(k2)
+            small = shrink_case(case, os.path.join(ctx.scratch, "shrink"), key)
+            again = bounded_case(small, os.path.join(ctx.scratch, "shrink"))
+            what2 = next((w for k, w in again["violations"] if k == key), what)
+            ctx.violation(k2, f"{what0}: {what2}", {"kind": "history", "case": case_json(small)})
+    ctx.stats["ids_keys"] = {"cases": len(jobs), **outcomes}
+    return runs
 
 
 def oracle_handles(ctx) -> Tuple[List[Tuple[Dict[str, Any], Dict[str, Any]]], List[Tuple[Dict[str, Any], Dict[str, Any]]]]:
@@ -1194,6 +1398,14 @@ def oracle_cells(ctx) -> None:
                         "steps": [{"handle": "A", "variant": "omitted", "arg": None, "sid": 1, "records": [{"a": v}]}]}
                 jobs.append((case, 1))
                 meta.append((ty, v, required))
+    # list<element> columns (declared {"type": "list<e>"}): every list value of the pool and a few scalars
+    scalars = [1, 1.5, "a", b"x", True]
+    for lt in LIST_TYPES:
+        for v in [x for x in POOL if x is None or is_seq(x)] + scalars:
+            case = {"fields": [{"id": 1, "name": "a", "type": {"type": lt}, "required": False}],
+                    "steps": [{"handle": "A", "variant": "omitted", "arg": None, "sid": 1, "records": [{"a": v}]}]}
+            jobs.append((case, 1))
+            meta.append((lt, v, False))
     for (case, _), (ty, v, required), res in zip(jobs, meta, bounded_many(ctx.scratch, jobs)):
         n += 1
         ctx.count(1, ("cell", ty, repr(v), required))
@@ -1251,10 +1463,11 @@ def oracle_spelling(ctx) -> None:
     for t in TYPES:
         bad_vals = coercible_values(t)
         vals = (bad_vals if thorough else bad_vals[:4]) + (good_values(t)[1:2] or good_values(t)[:1])
-        for shape in (SHAPES if thorough else ["dict", "dict_doc"]):
+        for shape in (SHAPES if thorough else ["dict", "dict_doc", "listof"]):
             td = spell(t, shape)
             decl = declared_type(td)
-            for v in vals if decl != "opaque" else [b"x", "s", 1, 1.5]:
+            wrap = {"listof": lambda x: [x], "listof2": lambda x: [[x], []]}.get(shape, lambda x: x)
+            for v in [wrap(x) for x in (vals if shape in ("dict", "dict_doc") or thorough else vals[:2] + vals[-1:])] if decl != "opaque" else [b"x", "s", 1, 1.5]:
                 plain = [{"id": 1, "name": "a", "type": t, "required": False}]
                 spelled = [{"id": 1, "name": "a", "type": td, "required": False}]
                 # (1) table declared with the plain string, argument spelled: fresh handle
@@ -1269,12 +1482,12 @@ def oracle_spelling(ctx) -> None:
                     # (4) spelled table, identical spelled argument under another schema id
                     one("table-arg", shape, {"fields": spelled, "steps": [{"handle": "fresh", "variant": "identical_new_sid", "arg": copy.deepcopy(spelled), "sid": 7, "records": [{"a": v}]}]}, v, decl)
     if not thorough:
-        for shape in ["nested", "upper", "list", "empty"]:
+        for shape in ["nested", "upper", "list", "empty", "listof2"]:
             for t in ("int", "string"):
                 td = spell(t, shape)
-                for v in [b"x", "s", 1.5]:
+                for v in ([b"x", "s", 1.5] if shape != "listof2" else [[[1.5]], [["s"]], [[1], [2]], [1]]):
                     one("table", shape, {"fields": [{"id": 1, "name": "a", "type": td, "required": False}],
-                                          "steps": [{"handle": "A", "variant": "omitted", "arg": None, "sid": 1, "records": [{"a": v}]}]}, v, "opaque")
+                                          "steps": [{"handle": "A", "variant": "omitted", "arg": None, "sid": 1, "records": [{"a": v}]}]}, v, declared_type(td))
     for (tag, shape, case, v, decl), res in zip(pending, bounded_many(ctx.scratch, [(p[2], 1) for p in pending])):
         judge(tag, shape, case, v, decl, res)
     ctx.stats["spelling"] = {"cases": n, **outcomes}
@@ -1390,7 +1603,20 @@ def probe_legacy(ctx) -> None:
 
 
 # ---------------------------------------------------------------------------------- correspondence (model vs code)
-NAME_NUM = {"a": 0, "b": 1, "c": 2, "z": 3, "q": 4, "zz": 5}
+NAME_NUM = {"a": 0, "b": 1, "c": 2, "z": 3, "q": 4, "zz": 5, "1": 6, "None": 7, "True": 8}
+OTHER_NAME = 9                                       # every name no schema of this module uses
+
+
+def key_coq(k: Any) -> int:
+    """Model/Schema.v record key: the number of the name for a str; -(1 + the number of str(k)) for any other object."""
+    if isinstance(k, str):
+        return NAME_NUM.get(k, OTHER_NAME)
+    return -(1 + NAME_NUM.get(str(k), OTHER_NAME))
+
+
+class NotModelled(Exception):
+    """The case lies outside the model's domain (e.g. field ids that are no integers: no such Schema exists once
+    Schema.__post_init__ refuses them -- pinned by the translator)."""
 REQ_P = REQ + ["DS.Proofs.SchemaProofs"]
 
 
@@ -1399,7 +1625,9 @@ def b2c(b: bool) -> str:
 
 
 def field_coq(f: Dict[str, Any]) -> str:
-    return (f"{{| fid := ({f['id']})%Z; fname := {NAME_NUM[f['name']]}%Z; ftype := T_{resolved_type(f['type'])}; "
+    if type(f["id"]) is not int:
+        raise NotModelled(f"field id {f['id']!r}")
+    return (f"{{| fid := ({f['id']})%Z; fname := {NAME_NUM[f['name']]}%Z; ftype := {ctype_coq(resolved_type(f['type']))}; "
             f"fspell := {spell_code(f['type'])}%Z; freq := {b2c(bool(f.get('required', False)))} |}}")
 
 
@@ -1427,13 +1655,13 @@ def cache_coq(cache: Optional[List[Any]], tags: Dict[str, int]) -> Optional[str]
     if cache is None:
         return None
     try:
-        return "[" + "; ".join(f"(({int(k)})%Z, [" + "; ".join(f"({NAME_NUM[n]}%Z, {tags[ty]}%Z, {b2c(nl)})" for n, ty, nl in a) + "])" for k, a in cache) + "]"
+        return "[" + "; ".join(f"(({int(k)})%Z, [" + "; ".join(f"({NAME_NUM[n]}%Z, {arrow_tag(ty, tags)}%Z, {b2c(nl)})" for n, ty, nl in a) + "])" for k, a in cache) + "]"
     except KeyError:
         return None
 
 
-def record_coq(r: Dict[str, Any]) -> str:
-    return "[" + "; ".join(f"({NAME_NUM[k]}%Z, {pyval_to_coq(v)})" for k, v in r.items()) + "]"
+def record_coq(r: Dict[Any, Any]) -> str:
+    return "[" + "; ".join(f"(({key_coq(k)})%Z, {pyval_to_coq(v)})" for k, v in r.items()) + "]"
 
 
 def opt_pyval_coq(res: Tuple[str, Any]) -> str:
@@ -1444,15 +1672,22 @@ _REAL_ARROW: Dict[str, Any] = {}
 
 
 def real_arrow_type(ptype: str):
-    """The Arrow type the real _iceberg_type_to_arrow maps a primitive type to."""
+    """The Arrow type the real _iceberg_type_to_arrow maps a resolved type (primitive or list<...>) to."""
     if ptype not in _REAL_ARROW:
         from datashard.data_operations import DataFileManager
         _REAL_ARROW[ptype] = DataFileManager._iceberg_type_to_arrow(DataFileManager.__new__(DataFileManager), ptype)
     return _REAL_ARROW[ptype]
 
 
+def arrow_tag(ty: str, tags: Dict[str, int]) -> int:
+    """SchemaEval.catype_tag of an Arrow type given by its str(): list<item: T> / list<element: T> -> 16 * (1 + tag T)."""
+    if ty.startswith("list<") and ty.endswith(">") and ": " in ty:
+        return 16 * (1 + arrow_tag(ty[ty.index(": ") + 2:-1], tags))
+    return tags[ty]
+
+
 def real_conv(ptype: str, v: Any) -> Tuple[str, Any]:
-    """pyarrow's conversion of one cell for the column type (what from_pylist does per column)."""
+    """pyarrow's conversion of one cell for the (resolved) column type (what from_pylist does per column)."""
     import pyarrow as pa
     try:
         return ("ok", pa.array([v], type=real_arrow_type(ptype))[0].as_py())
@@ -1482,7 +1717,18 @@ def q_coq(x: float) -> str:
 def rnd_tab_coq(values: List[Any]) -> str:
     from harness.lib.values import num_to_coq
     ents = []
+    flat: List[Any] = []
+
+    def walk(x: Any) -> None:
+        if is_seq(x):
+            for y in x:
+                walk(y)
+        else:
+            flat.append(x)
+
     for v in values:
+        walk(v)
+    for v in flat:
         if isinstance(v, float) and v == v and v not in (float("inf"), float("-inf")):
             r = f32(v)
             if r is not None:
@@ -1520,6 +1766,7 @@ def corr_accept_arrow(ctx) -> None:
             v2 = make_variant(rng, v1[0], rng.choice(VARIANTS[1:]))
             if v2 is not None and len({f["name"] for f in v2[0]}) == len(v2[0]) and len({f["id"] for f in v2[0]}) == len(v2[0]):
                 args.append(("double", v2[0], v2[1]))
+        args = [a for a in args if int_ids(a[1])]    # ids that are no ints: no such Schema object (pinned); e2e / oracle_ids_keys
         for vname, arg, sid in args:
             mode = rng.choice(BUILD_MODES)
             try:
@@ -1540,7 +1787,7 @@ def corr_accept_arrow(ctx) -> None:
         impl_seq, model_parts = [], []
         for sid, arg in seq:
             a = dfm.create_arrow_schema(Schema(schema_id=sid, fields=copy.deepcopy(arg)))
-            impl_seq.append([(NAME_NUM[fl.name], tags[str(fl.type)], fl.nullable) for fl in a])
+            impl_seq.append([(NAME_NUM[fl.name], arrow_tag(str(fl.type), tags), fl.nullable) for fl in a])
         # model: thread the cache through the same calls
         expr = "[]"
         calls = "; ".join(ischema_coq(sid, arg) for sid, arg in seq)
@@ -1574,22 +1821,24 @@ def corr_records(ctx) -> None:
     from datashard.data_structures import Schema
     rng = ctx.rng
     dfm = DataFileManager.__new__(DataFileManager)
-    # (1) value_fits, exhaustively over types x pool
-    cases = [(t, v) for t in TYPES for v in POOL]
+    # (1) value_fits, exhaustively over types x pool; list<...> types x (the lists of the pool + some scalars)
+    cases = [(t, v) for t in TYPES for v in POOL] + [(t, v) for t in LIST_TYPES for v in POOL if v is None or is_seq(v) or v in (1, "a")]
     okf, impl = guarded(ctx, "corr-value_fits", {"kind": "hang", "where": "_value_fits over types x value pool"},
                         lambda: [bool(DataFileManager._value_fits(t, v)) if hasattr(DataFileManager, "_value_fits") else True for t, v in cases], 60.0)
     if not okf:
         return
-    got = coqbuild.coq_eval(REQ, [f"value_fits T_{t} {pyval_to_coq(v)}" for t, v in cases])
+    got = coqbuild.coq_eval(REQ, [f"value_fits_c {ctype_coq(t)} {pyval_to_coq(v)}" for t, v in cases])
     bad = [{"type": t, "value": enc(v), "impl": i, "model": g} for (t, v), i, g in zip(cases, impl, got) if i != g]
     # the same test through every other SPELLING of the type definition (resolved as the code resolves it)
-    shapes = SHAPES if ctx.tier == "thorough" else ["dict", "upper", "list"]
-    scases = [(spell(t, sh), v) for sh in shapes for t in TYPES for v in POOL]
+    shapes = SHAPES if ctx.tier == "thorough" else ["dict", "upper", "list", "listof"]
+    scases = [(spell(t, sh), v) for sh in shapes for t in TYPES for v in POOL if not sh.startswith("listof") or v is None or is_seq(v)]
+    scases += [({"type": "list<lon"}, ["a"]), ({"type": "list<lon"}, [1]), ({"type": "list<map<string,long>>"}, ["a"]), ({"type": "map<string,long>"}, "a"),
+               ({"type": "list<>"}, ["a"]), ({"type": "list<"}, ["a"]), ({"type": "list<LONG>"}, [1])]
     okf, simpl = guarded(ctx, "corr-value_fits", {"kind": "hang", "where": "_value_fits over spelled types x value pool"},
                          lambda: [bool(DataFileManager._value_fits(td, v)) if hasattr(DataFileManager, "_value_fits") else True for td, v in scases], 60.0)
     if not okf:
         return
-    sgot = coqbuild.coq_eval(REQ, [f"value_fits T_{resolved_type(td)} {pyval_to_coq(v)}" for td, v in scases])
+    sgot = coqbuild.coq_eval(REQ, [f"value_fits_c {ctype_coq(resolved_type(td))} {pyval_to_coq(v)}" for td, v in scases])
     bad += [{"type": td, "value": enc(v), "impl": i, "model": g} for (td, v), i, g in zip(scases, simpl, sgot) if i != g]
     ctx.correspondence("value_fits", len(cases) + len(scases), bad)
     ctx.count(len(scases), ("fits-spelled", len(scases)))
@@ -1605,8 +1854,8 @@ def corr_records(ctx) -> None:
             raises += 1
             continue
         kept.append((t, v, res[1]))
-        exprs.append(f"(pyval_eqb (canon (rnd_tab {rnd}) T_{t} {pyval_to_coq(v)}) {pyval_to_coq(res[1])}, "
-                     f"has_kind (kind_of_atype (arrow_of_type T_{t})) (bval {pyval_to_coq(res[1])}))")
+        exprs.append(f"(pyval_eqb (canon_c (rnd_tab {rnd}) {ctype_coq(t)} {pyval_to_coq(v)}) {pyval_to_coq(res[1])}, "
+                     f"has_kind (kind_of_catype (arrow_of_ctype {ctype_coq(t)})) (bval {pyval_to_coq(res[1])}))")
     got2 = coqbuild.coq_eval(REQ_P, exprs)
     bad = [{"type": t, "value": enc(v), "pyarrow_stores": enc(r), "canon_equal": g[0], "kind_ok": g[1]}
            for (t, v, r), g in zip(kept, got2) if not (g[0] and g[1])]
@@ -1619,7 +1868,7 @@ def corr_records(ctx) -> None:
         res = real_conv(t, v)
         if res[0] == "ok":
             kept.append((t, v, res[1]))
-            exprs.append(f"has_kind (kind_of_atype (arrow_of_type T_{t})) (bval {pyval_to_coq(res[1])})")
+            exprs.append(f"has_kind (kind_of_catype (arrow_of_ctype {ctype_coq(t)})) (bval {pyval_to_coq(res[1])})")
     got3 = coqbuild.coq_eval(REQ_P, exprs)
     bad = [{"type": t, "value": enc(v), "pyarrow_stores": enc(r)} for (t, v, r), g in zip(kept, got3) if not g]
     ctx.correspondence("conv_kinds", len(kept), bad)
@@ -1627,7 +1876,7 @@ def corr_records(ctx) -> None:
     n = 150 if ctx.tier == "quick" else 1500
     rcases, rimpl, rexprs = [], [], []
     def one_batch(ri) -> None:
-        fields = mk_fields(rng, rng.choice([1, 2, 3]), p_spelled=0.3)
+        fields = mk_fields(rng, rng.choice([1, 2, 3]), p_spelled=0.3, p_names=0.15)
         recs = gen_records(rng, fields, 0.3)
         if recs and recs[0] and rng.random() < 0.2:
             del recs[0][rng.choice(list(recs[0].keys()))]
@@ -1670,6 +1919,14 @@ def _decode_bound_indep(raw: str) -> Any:
     return str(v)
 
 
+def bound_id(k: Any) -> int:
+    """The field id a stored bound is keyed by (manifests store the keys as strings)."""
+    try:
+        return int(k)
+    except (TypeError, ValueError):
+        raise NotModelled(f"a stored bound is keyed by {k!r}, which is no integer") from None
+
+
 def classify(ev: Dict[str, Any]) -> int:
     if ev["outcome"] == "accepted":
         return 0
@@ -1695,9 +1952,8 @@ def corr_machine(ctx, runs: List[Tuple[Dict[str, Any], Dict[str, Any]]]) -> None
     exprs, kept, impl = [], [], []
     skipped = 0
     nopens = ncaches = 0
-    for case, res in runs:
-        if not res["trace"] or any(k.startswith(("scan-raises", "rows-differ")) for k, _ in res["violations"]) and False:
-            continue
+    def one(case: Dict[str, Any], res: Dict[str, Any]) -> None:
+        nonlocal nopens, ncaches
         steps = case["steps"][:len(res["trace"])]
         # conversion table: every type in play x every cell value in play
         ptypes = {resolved_type(f["type"]) for f in case["fields"]}
@@ -1712,7 +1968,7 @@ def corr_machine(ctx, runs: List[Tuple[Dict[str, Any], Dict[str, Any]]]) -> None
         tab = []
         for t in sorted(ptypes):
             for v in values:
-                tab.append(f"(arrow_of_type T_{t}, {pyval_to_coq(v)}, {opt_pyval_coq(real_conv(t, v))})")
+                tab.append(f"(arrow_of_ctype {ctype_coq(t)}, {pyval_to_coq(v)}, {opt_pyval_coq(real_conv(t, v))})")
         conv = "(conv_tab [" + "; ".join(tab) + "])"
         fresh_id = 10
         extra_id = 100
@@ -1738,15 +1994,21 @@ def corr_machine(ctx, runs: List[Tuple[Dict[str, Any], Dict[str, Any]]]) -> None
             if rc is not None:
                 rcs.append(f"({h}%Z, {rc})")
                 ncaches += 1
+            if st["arg"] is not None and not int_ids(st["arg"]):
+                # the argument object could not even be built (Schema refuses ids that are no ints): no append took
+                # place, nothing to step the model with -- provided that is what happened and no handle was opened
+                if ev["outcome"] == "rejected" and "is not an integer" in ev.get("message", "") and not opens:
+                    continue
+                raise NotModelled("an append went ahead with a schema argument whose field ids are no integers")
             stale = st.get("build", "fresh") != "fresh" and st["arg"] != case["fields"]
             arg = f"(Some {ischema_coq(st['sid'], st['arg'], stale)})" if st["arg"] is not None else "None"
             recs = "[" + "; ".join(record_coq({k: v for k, v in r.items()}) for r in st["records"]) + "]"
             real_files = []
             for f in ev["files"]:
-                footer = "[" + "; ".join(f"({NAME_NUM[n]}%Z, {tags[ty]}%Z, {b2c(nl)})" for n, ty, nl in f["schema"]) + "]"
+                footer = "[" + "; ".join(f"({NAME_NUM[n]}%Z, {arrow_tag(ty, tags)}%Z, {b2c(nl)})" for n, ty, nl in f["schema"]) + "]"
                 rows = "[" + "; ".join("[" + "; ".join(f"({NAME_NUM[k]}%Z, {pyval_to_coq(v)})" for k, v in r.items()) + "]" for r in f["rows"]) + "]"
-                lo = "[" + "; ".join(f"(({int(k)})%Z, {val_to_coq(_decode_bound_indep(v))})" for k, v in (f["lo"] or {}).items()) + "]"
-                hi = "[" + "; ".join(f"(({int(k)})%Z, {val_to_coq(_decode_bound_indep(v))})" for k, v in (f["hi"] or {}).items()) + "]"
+                lo = "[" + "; ".join(f"(({bound_id(k)})%Z, {val_to_coq(_decode_bound_indep(v))})" for k, v in (f["lo"] or {}).items()) + "]"
+                hi = "[" + "; ".join(f"(({bound_id(k)})%Z, {val_to_coq(_decode_bound_indep(v))})" for k, v in (f["hi"] or {}).items()) + "]"
                 real_files.append(f"({footer}, {rows}, {lo}, {hi})")
             evs.append(f"([{'; '.join(opens)}], {{| e_handle := {h}%Z; e_arg := {arg}; e_recs := {recs}; e_commit_ok := {b2c(not st.get('commit_fails'))} |}}, "
                        f"[{'; '.join(real_files)}], [{'; '.join(rcs)}])")
@@ -1755,6 +2017,13 @@ def corr_machine(ctx, runs: List[Tuple[Dict[str, Any], Dict[str, Any]]]) -> None
         exprs.append(f"htrace {conv} (init (Some {ischema_coq(1, case['fields'])})) [{'; '.join(evs)}]")
         kept.append(case)
         impl.append(obs)
+    for case, res in runs:
+        if not res["trace"]:
+            continue
+        try:
+            one(case, res)
+        except NotModelled:
+            skipped += 1
     got = coqbuild.coq_eval(REQ, exprs, chunk=8)
     bad = []
     nsteps = 0
@@ -1771,6 +2040,20 @@ def corr_machine(ctx, runs: List[Tuple[Dict[str, Any], Dict[str, Any]]]) -> None
     ctx.stats["machine_openings"] = nopens
     ctx.stats["machine_handle_caches_compared"] = ncaches
     ctx.stats["machine_cases_not_modelled"] = skipped
+
+
+def claim_coq(d: Optional[Dict[Any, Any]]) -> str:
+    """Caller-supplied DataFile.lower_bounds / upper_bounds as Model/SchemaTx.v pf_lo / pf_hi (the model never looks
+    inside: what is stored is recomputed from the file)."""
+    if d is None:
+        return "None"
+    ents = []
+    for k, v in d.items():
+        try:
+            ents.append(f"(({int(k)})%Z, {val_to_coq(v)})")
+        except Exception:                            # noqa: BLE001 - a claimed value outside the shared value domain
+            continue
+    return "(Some [" + "; ".join(ents) + "])"
 
 
 def fault_coq(spec: Optional[Dict[str, Any]]) -> Optional[str]:
@@ -1794,8 +2077,9 @@ def corr_tx(ctx, runs: List[Tuple[Dict[str, Any], Dict[str, Any]]]) -> None:
     tags = arrow_tags()
     by_arrow = {}
     for t in TYPES:
-        by_arrow.setdefault(str(real_arrow_type(t)), f"arrow_of_type T_{t}")
+        by_arrow.setdefault(str(real_arrow_type(t)), f"(APrim (arrow_of_type T_{t}))")
     exprs, kept, impl = [], [], []
+    typed_exprs: List[str] = []                      # hypothesis pf_typed of C11_tx_history_filter, per pre-built file
     unmodelled = 0
     for case, res in runs:
         if not res["trace"]:
@@ -1813,7 +2097,7 @@ def corr_tx(ctx, runs: List[Tuple[Dict[str, Any], Dict[str, Any]]]) -> None:
                     for v in r.values():
                         if not any(same_cell(v, w) and type(v) is type(w) for w in values):
                             values.append(v)
-        tab = [f"(arrow_of_type T_{t}, {pyval_to_coq(v)}, {opt_pyval_coq(real_conv(t, v))})" for t in sorted(ptypes) for v in values]
+        tab = [f"(arrow_of_ctype {ctype_coq(t)}, {pyval_to_coq(v)}, {opt_pyval_coq(real_conv(t, v))})" for t in sorted(ptypes) for v in values]
         conv = "(conv_tab [" + "; ".join(tab) + "])"
         fresh_id, pid, extra_id = 10, 1000, 100
         evs, obs = [], []
@@ -1861,9 +2145,14 @@ def corr_tx(ctx, runs: List[Tuple[Dict[str, Any], Dict[str, Any]]]) -> None:
                                 ok = False
                                 foot = "None"
                         rows = "[" + "; ".join("[" + "; ".join(f"({NAME_NUM[k]}%Z, {pyval_to_coq(v)})" for k, v in r.items()) + "]" for r in fo["rows"]) + "]"
+                        if foot.startswith("(Some ") and fo["rows"] and len(typed_exprs) < (150 if ctx.tier == "quick" else 1500):
+                            fl = foot[len("(Some "):-1]
+                            typed_exprs.append(f"forallb (fun row => forallb (fun x => has_kind (colkind {fl} (fst (fst x))) (cell (vrow row) (fst (fst x)))) {fl}) {rows}")
                         k = spec["kind"]
+                        claim = fo.get("claim") or (None, None)
                         pfs.append(f"{{| pf_id := {pid}%Z; pf_canonical := {b2c(k != 'noncanonical')}; pf_exists := {b2c(k != 'missing')}; "
-                                   f"pf_parquet := {b2c(k not in ('avro', 'orc_declared'))}; pf_footer := {foot}; pf_rows := {rows} |}}")
+                                   f"pf_parquet := {b2c(k not in ('avro', 'orc_declared'))}; pf_footer := {foot}; pf_rows := {rows}; "
+                                   f"pf_lo := {claim_coq(claim[0])}; pf_hi := {claim_coq(claim[1])} |}}")
                     if len(pfs) != len(c["files"]):
                         ok = False
                     calls.append((f"CFilesF {ft} [" if ft else "CFiles [") + "; ".join(pfs) + "]")
@@ -1872,13 +2161,17 @@ def corr_tx(ctx, runs: List[Tuple[Dict[str, Any], Dict[str, Any]]]) -> None:
             real_files = []
             for f in tev["files"]:
                 try:
-                    footer = "[" + "; ".join(f"({NAME_NUM[n]}%Z, {tags[ty]}%Z, {b2c(nl)})" for n, ty, nl in f["schema"]) + "]"
+                    footer = "[" + "; ".join(f"({NAME_NUM[n]}%Z, {arrow_tag(ty, tags)}%Z, {b2c(nl)})" for n, ty, nl in f["schema"]) + "]"
                 except KeyError:
                     ok = False
                     footer = "[]"
                 rows = "[" + "; ".join("[" + "; ".join(f"({NAME_NUM[k]}%Z, {pyval_to_coq(v)})" for k, v in r.items()) + "]" for r in f["rows"]) + "]"
-                lo = "[" + "; ".join(f"(({int(k)})%Z, {val_to_coq(_decode_bound_indep(v))})" for k, v in (f["lo"] or {}).items()) + "]"
-                hi = "[" + "; ".join(f"(({int(k)})%Z, {val_to_coq(_decode_bound_indep(v))})" for k, v in (f["hi"] or {}).items()) + "]"
+                try:
+                    lo = "[" + "; ".join(f"(({bound_id(k)})%Z, {val_to_coq(_decode_bound_indep(v))})" for k, v in (f["lo"] or {}).items()) + "]"
+                    hi = "[" + "; ".join(f"(({bound_id(k)})%Z, {val_to_coq(_decode_bound_indep(v))})" for k, v in (f["hi"] or {}).items()) + "]"
+                except NotModelled:
+                    ok = False
+                    lo = hi = "[]"
                 real_files.append(f"({footer}, {rows}, {lo}, {hi})")
             evs.append(f"([{'; '.join(opens)}], {{| t_handle := {h}%Z; t_calls := [{'; '.join(calls)}]; t_end := {end} |}}, [{'; '.join(real_files)}], [{'; '.join(rcs)}])")
             obs.append((ctags, tev["nsnaps"], tev["store"], len(tev["files"]), True, tev["scan"] != "raises", True))
@@ -1900,13 +2193,18 @@ def corr_tx(ctx, runs: List[Tuple[Dict[str, Any], Dict[str, Any]]]) -> None:
                         "impl (call tags, snapshots, library files stored, current files, files match, scan ok, handle caches match)": i[k] if k is not None else i,
                         "model": g2[k] if k is not None else g2})
     ctx.correspondence("transactions", len(kept), bad)
+    # pf_typed (hypothesis of C11_tx_history_filter): every cell pyarrow reads from a parquet column has the kind of the
+    # column's footer type -- on the pre-built files of these histories
+    tgot = coqbuild.coq_eval(REQ_P, typed_exprs)
+    ctx.correspondence("pf_typed", len(typed_exprs), [{"file": e[:400]} for e, g in zip(typed_exprs, tgot) if g is not True])
     ctx.stats["tx_corr_transactions"] = ntx
     ctx.stats["tx_corr_cases_with_unmodelled_fault_window"] = unmodelled
 
 
 # ---------------------------------------------------------------------------------- driver
 def run(ctx) -> None:
-    ctx.rule = ("e2e: random histories (3-6 append attempts) over 1-3 column schemas of 12 primitive types x 13 schema-argument "
+    ctx.rule = ("e2e: random histories (3-6 append attempts) over 1-3 column schemas of 12 primitive types (+ spellings incl. list<e>, "
+                "field ids written as other objects, column names that are the str() of a non-str key) x 25 schema-argument "
                 "variants x {reused A, reused B, fresh} handles x batches drawn from a pool of value classes; a history is "
                 "distinct by (case index, step); handle provenance: each step's handle may be re-obtained (load_table / "
                 "create_table / Table(...) x schema-argument variants x schema ids x build modes) and further handles opened; "
@@ -1916,23 +2214,28 @@ def run(ctx) -> None:
         "translator/gen_schema.py (literal tables and the signature's shape from the source; other functions pinned by golden AST)",
         "translator/gen_open.py (the actions of create_table / load_table / Table.__init__ from the source, helpers inlined; "
         "_get_current_schema read-only, _arrow_schema_cache touched only by DataFileManager.__init__ / create_arrow_schema: checked, fail-closed)",
-        "hypothesis conv_sound (C11_exact_partial): pyarrow stores an admitted value as Model/Schema.v canon or raises -- validated by the 'conv' correspondence",
+        "hypothesis conv_sound (C11_exact_partial, C11_tx_exact_partial, C11_handles_exact_partial): pyarrow stores an admitted value as Model/Schema.v canon_c or raises -- validated by the 'conv_sound' correspondence",
+        "hypotheses conv_kinds (filter / bounds_true theorems) and pf_typed (C11_tx_history_filter): a cell pyarrow converts / reads from parquet has the kind of its column's Arrow type -- validated by the 'conv_kinds' and 'pf_typed' correspondences",
         "rnd32 = IEEE binary32 round-to-nearest-even (struct.pack('f')), a parameter of canon",
         "harness: harness/props/c11.py, harness/lib/c11_values.py (independent reader, reference judgement `exact`)",
     ]
     ctx.assumptions += ["the table has a persisted, non-empty schema (create_table(path, schema)); legacy tables enforce nothing",
                         "handles are obtained on a table that already exists (Table.__init__ initialises only when refresh() is None: pinned by gen_open.py)",
-                        "field names and ids unique within a schema (enforced by Schema.__post_init__; pinned by the translator)",
-                        "column types are the primitive types of Schema.__post_init__",
+                        "field names and ids unique within a schema, ids integers (enforced by Schema.__post_init__, and again by "
+                        "append_data on the argument object as it is at the call; pinned by the translator)",
+                        "field names are strs (a Schema whose field name is no str is accepted by the constructor; every append to it raises)",
+                        "column types are the primitive types of Schema.__post_init__ and list<...> of them ({'type': 'list<e>'}); every other definition is a string column",
+                        "C11_tx_history_filter: every cell of a pre-built parquet file's column has the kind of the column's footer type (pf_typed)",
                         "C13: pruning by bounds stored under the looked-up id never changes a filtered scan (composed in C11_history_filter)"]
     ctx.proofs(THEOREMS, gen_files=["GenSchema.v", "GenPrune.v", "GenOpen.v"])
     ctx.allow_axioms([])
     oracle_cells(ctx)
     oracle_spelling(ctx)
     oracle_objects(ctx)
+    ik_runs = oracle_ids_keys(ctx)
     oracle_prebuilt(ctx)
     h_runs, h_tx_runs = oracle_handles(ctx)
-    runs = oracle_e2e(ctx) + h_runs
+    runs = oracle_e2e(ctx) + h_runs + ik_runs
     tx_runs = oracle_tx(ctx) + h_tx_runs
     tx_runs += oracle_faults(ctx)
     guarded(ctx, "legacy-probe", {"kind": "hang", "where": "probe_legacy"}, lambda: probe_legacy(ctx), 60.0)
@@ -1953,6 +2256,8 @@ def replay(ctx, payload) -> int:
     if case.get("kind") == "history":
         c = case_unjson(case["case"])
         res = bounded_case(c, os.path.join(ctx.scratch, "replay"))
+        if res.get("refused"):
+            print("  the table schema itself is refused:", res["refused"])
         for ev in res["trace"]:
             print("  step", ev["step"], ev["variant"], ev["handle"], ev["outcome"], ev.get("error", ""), "scan:", ev["scan"])
         if res["violations"]:
